@@ -154,6 +154,11 @@ def jobs(tier, seed):
     # state of the first must not leak into the second
     for c1 in CODINGS:
         js.append(dict(kind='reuse', first=c1, tier=tier))
+    # the coded body travelling through Stream.read_body (chunked / length / until-close
+    # framing), every cut of the response stream: the loops around the decoder matter too
+    for cod in ('gzip9', 'zlib', 'raw', 'zlib-w9', 'ident-gzip', 'gzip1'):
+        for framing in WIRE_FRAMINGS:
+            js.append(dict(kind='wire', coding=cod, framing=framing, tier=tier))
     if tier != 'quick':
         js.append(dict(kind='corrupt', payload='rand300', coding='gzip9', tier=tier))
         js.append(dict(kind='corrupt', payload='rand300', coding='raw', tier=tier))
@@ -169,6 +174,8 @@ def run_job(job):
                samples=[], distinct=set(), extra={})
     if job['kind'] == 'reuse':
         return run_reuse(job, res)
+    if job['kind'] == 'wire':
+        return run_wire(job, res)
     payload = PAYLOADS[job['payload']]
     declared, wire = encode(payload, job['coding'])
     tag = '%s/%s' % (job['payload'], job['coding'])
@@ -249,6 +256,81 @@ def run_job(job):
         res['samples'].append(dict(stream=tag, wire_bytes=n, mutants=len(muts),
                                    mode='every truncation + 1-byte substitutions x '
                                         '{whole, singles, each single cut}'))
+    return res
+
+
+WIRE_FRAMINGS = ['cl', 'chunked1', 'chunked2', 'chunked-small', 'close']
+
+
+def wire_response(declared, wire, framing):
+    head = 'HTTP/1.1 200 OK\r\nServer: x\r\n'
+    if declared:
+        head += 'Content-Encoding: %s\r\n' % declared
+    close = False
+    if framing == 'cl':
+        head += 'Content-Length: %d\r\n' % len(wire)
+        payload = wire
+    elif framing == 'close':
+        head += 'Connection: close\r\n'
+        payload = wire
+        close = True
+    else:
+        head += 'Transfer-Encoding: chunked\r\n'
+        if framing == 'chunked1':
+            parts = [wire]
+        elif framing == 'chunked2':
+            parts = [wire[:len(wire) // 2], wire[len(wire) // 2:]]
+        else:
+            parts = [wire[:1], wire[1:3], wire[3:11], wire[11:]]
+        payload = b''.join(b'%x\r\n' % len(p) + p + b'\r\n' for p in parts if p) + \
+            b'0\r\n\r\n'
+    return (head + '\r\n').encode('latin-1') + payload, close
+
+
+def run_wire(job, res):
+    from vt import httpharn
+    for pn in ('short', 'x1f') + (('text2k',) if job['tier'] != 'quick' else ()):
+        declared, wire = encode(PAYLOADS[pn], job['coding'])
+        ref = reference(declared, wire)
+        raw, close = wire_response(declared, wire, job['framing'])
+        body_at = raw.index(b'\r\n\r\n') + 4
+        n = len(raw)
+        plans = [[], list(range(1, n))] + [[c] for c in range(1, n)]
+        near = [c for c in range(body_at, min(n, body_at + 16))]
+        plans += [[a, b] for a in near for b in near if a < b]
+        if job['tier'] != 'quick':
+            plans += [[a, b] for a in range(body_at, n) for b in range(a + 1, n)
+                      if [a, b] not in plans][:6000]
+        tag = '%s/%s/%s' % (pn, job['coding'], job['framing'])
+        for cuts in plans:
+            spec = dict(exchanges=[dict(method='GET', path='/x', response=raw.decode('latin-1'),
+                                        close=close)], keep_alive=True, ignore_length=False)
+            plan = dict(cuts=cuts)
+            obs, _ = httpharn.run_http(spec, plan)
+            o = obs['ex'][0]
+            got = ('err', None) if o['error'] else ('ok', o['body'].encode('latin-1'))
+            res['evaluations'] += 1
+            res['transitions'] += len(cuts) + 1
+            key = 'wire:%s:%s' % (got[0], ref[0])
+            res['outcomes'][key] = res['outcomes'].get(key, 0) + 1
+            v = None
+            if obs['result'] != 'done':
+                v = 'client %s' % obs['result']
+            elif ref[0] == 'ok' and got != ref:
+                v = 'body through Stream.read_body is %s (%s), one-shot reference %s' % (
+                    show(got), o['error'], show(ref))
+            elif ref[0] == 'err' and got[0] == 'ok':
+                v = 'corrupt body accepted as %s' % show(got)
+            if v and len(res['violations']) < 3:
+                res['violations'].append(dict(
+                    violation='%s [%s, cuts %s]' % (v, tag, summ(cuts)),
+                    signature='C19:wire:%s:%s' % (job['coding'], job['framing']), kind='wire',
+                    raw=raw.decode('latin-1'), close=close, cuts=cuts, declared=declared,
+                    wire=wire.decode('latin-1')))
+        res['distinct'].add(h64((tag, 'wire')))
+        res['states'].add(h64((tag, 'wire')))
+        res['samples'].append(dict(mode='through Stream.read_body', stream=tag,
+                                   response_bytes=n, plans=len(plans)))
     return res
 
 
@@ -337,6 +419,19 @@ def show(r):
 
 def replay(rec):
     _imports()
+    if rec.get('kind') == 'wire':
+        from vt import httpharn
+        spec = dict(exchanges=[dict(method='GET', path='/x', response=rec['raw'],
+                                    close=rec['close'])], keep_alive=True, ignore_length=False)
+        plan = dict(cuts=rec['cuts'])
+        obs, _ = httpharn.run_http(spec, plan)
+        o = obs['ex'][0]
+        got = ('err', None) if o['error'] else ('ok', o['body'].encode('latin-1'))
+        ref = reference(rec['declared'], rec['wire'].encode('latin-1'))
+        bad = obs['result'] != 'done' or (ref[0] == 'ok' and got != ref) or \
+            (ref[0] == 'err' and got[0] == 'ok')
+        return (rec['violation'] if bad else None), (rec['signature'] if bad else None), \
+            [obs['result'], show(got), o['error']]
     if rec.get('kind') == 'reuse':
         w1, w2 = rec['w1'].encode('latin-1'), rec['w2'].encode('latin-1')
         stream = Stream(None)
@@ -367,7 +462,10 @@ def describe(tier):
              'plus all-single-bytes; corrupt = every truncation and every 1-byte '
              'substitution by {00, FF, b^01}; two bodies (every ordered pair of codings x 4 '
              'payload pairs) decoded one after the other by the same Stream object under whole / '
-             'single-byte / every single-cut splits of each.  distinct = (payload, coding, mode)'
+             'single-byte / every single-cut splits of each; 6 codings x 5 framings (length, '
+             'one/two/four chunks, until close) of a coded body through the real '
+             'Session.download with every single cut of the response, byte-at-a-time, and all '
+             'pairs of cuts in the first 16 body positions.  distinct = (payload, coding, mode)'
              % (sorted(PAYLOADS), CODINGS, 15 if tier == 'quick' else 21),
         bounds=dict(full_split_limit=15 if tier == 'quick' else 21),
         assumptions=['zlib inflate is a byte-serial transducer (its state after a piece '
